@@ -383,12 +383,6 @@ func c15Exec(scAny any, c *simcheck.Ctx) *simcheck.Violation {
 				if v := try(raw[:off], 0, "stream_eof"); v != nil {
 					return v
 				}
-				// a valid stream ends with its only STOP: no proper prefix of it is a stream
-				if sc.Only == nil || *sc.Only == idx {
-					if val, err := pickle.NewDecoder(bytes.NewReader(raw[:off]), pickle.UnpicklerFunc(envUnpickler)).Decode(); err == nil {
-						return narrow(simcheck.V("truncated-stream-accepted", "the first %d of %d bytes of a valid encoding decoded without an error (to a %s)", off, len(raw), typeName(val)), idx)
-					}
-				}
 				if off%7 == 0 {
 					if v := try(applyCorruption(raw, corruption{Off: off, Mask: 0}), 1, "stream_byte_flip_short_reads"); v != nil {
 						return v
